@@ -20,15 +20,17 @@ func init() {
 		Rule: "cases = configuration cells (peer zcrypto|Go server x TLS 1.0-1.3 x server key RSA/P-256/P-384/P-521/Ed25519 x cipher suite x curve P-256/384/521/X25519) visited in a seed-shuffled order, " +
 			"each with seed-drawn options (ClientHello built by the library / ExternalClientHello / ClientFingerprintConfiguration, ALPN, SCT list, OCSP staple, ticket resumption, HelloRetryRequest, client auth, " +
 			"untrusted/expired/misnamed leaf, the zcrypto-specific client Config switches (ForceSessionTicketExt, SignedCertificateTimestampExt, HeartbeatEnabled, ExtendedRandom, ExtendedMasterSecret, NoOcspStapling, SessionTicketsDisabled, ClientRandom, CompressionMethods, SupportedPoints, SignatureAndHashes, ExplicitCurvePreferences), ServerHello rewritten in flight with an extra extension, read segmentation, unbuffered handshakes, DHE via a zcrypto server); every handshake is one evaluation; " +
+			"plus scripted-server cases: a TLS 1.0-1.2 server built on the package's own parser and reference derivations (RSA / ECDHE full and abbreviated handshakes, AES-GCM / AES-CBC sealing) enumerates NewSessionTicket length {0,1,16,200,65530,65535} x lifetime hint {0,300,2^32-1} x flow {single, resumed-with-refresh, resumption declined, resumed without refresh then refresh/decline, no ticket then ticket} with drawn session-id echo/fresh/empty, ALPN, unknown extensions, CertificateStatus, SCT list, fragmented / coalesced flights; " +
 			"non-trivial = the log has ClientHello and ServerHello, the transcript parsed, and at least one populated field was compared; distinct by (peer, negotiated version, suite, group, wire signature bytes, key kind, " +
 			"hello mode, outcome, HRR, ticket offered/issued, CertificateRequest, ALPN/SCT/OCSP/EMS on the wire, rewrite, leaf set, resumed, log sections present)",
-		MinNontrivial:         800,
+		MinNontrivial:         1200,
 		MinNontrivialThorough: 8000,
 		Shards:                16,
 		Env:                   []string{"GODEBUG=tlsrsakex=1,tls3des=1,tls10server=1,tlssha1=1"},
 		Assumptions: []string{
 			"the tap of internal/netx records exactly the bytes each endpoint received (filters run before the tap)",
 			"wire parser, PRF / key block / Finished / record opening / HKDF are written from the RFCs on Go's hash and cipher primitives and share no code with zcrypto",
+			"the scripted server's key-log line (CLIENT_RANDOM, master secret it derived itself) plays the role of the peer's key log",
 			"Go's crypto/tls server, crypto/rsa, crypto/ecdsa, crypto/ed25519, crypto/ecdh and crypto/x509 are trusted as independent references",
 			"the ClientHello / ServerHello log structs are populated as a whole: presence flags must equal 'extension on the wire' in both directions and empty lists / strings against a wire value are mismatches (:missing), except the fields of helloLenient in oracle.go (secure_renegotiation, sct_enabled, heartbeat, ServerHello extended_random, ClientHello unknown_extensions: ambiguous meaning or extension unknown to the message parser; counted as unpopulated:<field>)",
 			"outside the hello structs populated = non-zero: a zero-valued field is counted as unpopulated:<field>, not asserted",
@@ -59,6 +61,60 @@ func runC28(c *core.Ctx) {
 		c.Count("cells", len(cells))
 		c.Note("%d configuration cells; %d cases", len(cells), total)
 	}
+	report := func(sp spec, id string, idx int, o *hsObs, serverKey crypto.PrivateKey) {
+		oid := id + "/" + o.Label
+		c.Eval(1)
+		var res *obsResult
+		if pi := core.Guard(func() { res = checkObs(sp, o, serverKey) }); pi != nil {
+			c.Violation("oracle-"+pi.Key, pi.Value+"\n"+pi.Stack, oid, map[string]any{"spec": sp.String(), "tap": tapHex(o)})
+			return
+		}
+		if o.TimedOut {
+			c.Count("handshake_watchdog", 1)
+		}
+		switch {
+		case o.CErr == nil && o.SErr == nil:
+			c.Count("handshake_ok", 1)
+		case o.Log != nil && o.Log.ServerHello != nil:
+			c.Count("handshake_failed_after_serverhello", 1)
+		default:
+			c.Count("handshake_failed_early", 1)
+		}
+		if o.PingErr != nil {
+			c.Count("pingpong_failed", 1)
+		}
+		c.Count("mode_"+sp.Mode, 1)
+		c.Count("fields_compared", res.K.fields)
+		for n, v := range res.K.counts {
+			c.Count(n, v)
+		}
+		for _, s := range res.Sections {
+			c.Count("section:"+s, 1)
+		}
+		if v, ok := res.Summary["sig_scheme"].(string); ok && v != "none" {
+			c.Count("skx_sig:"+v, 1)
+		}
+		if v, ok := res.Summary["negotiated_version"].(string); ok {
+			c.Count("version:"+v, 1)
+		}
+		if res.Nontrivial {
+			c.Nontrivial(res.Sig)
+		}
+		if c.WantSample() && res.Nontrivial && idx%7 == 0 {
+			c.Sample(map[string]any{"case": oid, "spec": sp.String(), "summary": res.Summary, "mismatches": len(res.K.mm)})
+		}
+		seen := map[string]bool{}
+		for _, m := range res.K.mm {
+			if seen[m.Key] {
+				continue
+			}
+			seen[m.Key] = true
+			c.Violation(m.Key, m.Detail, oid, map[string]any{
+				"spec": sp.String(), "script": sp.Script, "handshake": o.Label, "client_error": fmt.Sprint(o.CErr), "server_error": fmt.Sprint(o.SErr),
+				"summary": res.Summary, "tap": tapHex(o), "client_keylog": o.ClientKL, "server_keylog": o.ServerKL,
+			})
+		}
+	}
 	for idx := c.Shard; idx < total; idx += c.NShards {
 		id := fmt.Sprintf("c%d", idx)
 		if c.OnlyCase != "" && !strings.HasPrefix(c.OnlyCase, id+"/") && c.OnlyCase != id {
@@ -84,58 +140,34 @@ func runC28(c *core.Ctx) {
 			serverKey = pki.Server[sp.Cell.Kind].Key
 		}
 		for _, o := range cr.Obs {
-			oid := id + "/" + o.Label
+			report(sp, id, idx, o, serverKey)
+		}
+	}
+	// scripted-server cases: the (ticket length x lifetime hint x flow) grid is enumerated, everything else is drawn
+	nScripted := c.Pick(4*numScriptCombos, 80*numScriptCombos)
+	if c.Shard == 0 {
+		c.Note("%d scripted-server cases over a grid of %d (ticket length, hint, flow) combinations", nScripted, numScriptCombos)
+	}
+	for idx := c.Shard; idx < nScripted; idx += c.NShards {
+		id := fmt.Sprintf("s%d", idx)
+		if c.OnlyCase != "" && !strings.HasPrefix(c.OnlyCase, id+"/") && c.OnlyCase != id {
+			continue
+		}
+		sc := makeScriptedCase(idx, c.GlobalRng(fmt.Sprintf("scripted-%d", idx)))
+		var obs []*hsObs
+		if pi := core.Guard(func() { obs = runScripted(sc) }); pi != nil {
 			c.Eval(1)
-			var res *obsResult
-			if pi := core.Guard(func() { res = checkObs(sp, o, serverKey) }); pi != nil {
-				c.Violation("oracle-"+pi.Key, pi.Value+"\n"+pi.Stack, oid, map[string]any{"spec": sp.String(), "tap": tapHex(o)})
-				continue
+			c.Violation("harness-or-client-"+pi.Key, pi.Value+"\n"+pi.Stack, id, map[string]any{"script": sc.Desc})
+			continue
+		}
+		for i, o := range obs {
+			sp := sc.Spec
+			sp.Script = sc.Desc + " | " + sc.Conns[i].String()
+			if o.SErr != nil {
+				c.Count("scripted_server_error", 1)
 			}
-			if o.TimedOut {
-				c.Count("handshake_watchdog", 1)
-			}
-			switch {
-			case o.CErr == nil && o.SErr == nil:
-				c.Count("handshake_ok", 1)
-			case o.Log != nil && o.Log.ServerHello != nil:
-				c.Count("handshake_failed_after_serverhello", 1)
-			default:
-				c.Count("handshake_failed_early", 1)
-			}
-			if o.PingErr != nil {
-				c.Count("pingpong_failed", 1)
-			}
-			c.Count("mode_"+sp.Mode, 1)
-			c.Count("fields_compared", res.K.fields)
-			for n, v := range res.K.counts {
-				c.Count(n, v)
-			}
-			for _, s := range res.Sections {
-				c.Count("section:"+s, 1)
-			}
-			if v, ok := res.Summary["sig_scheme"].(string); ok && v != "none" {
-				c.Count("skx_sig:"+v, 1)
-			}
-			if v, ok := res.Summary["negotiated_version"].(string); ok {
-				c.Count("version:"+v, 1)
-			}
-			if res.Nontrivial {
-				c.Nontrivial(res.Sig)
-			}
-			if c.WantSample() && res.Nontrivial && idx%7 == 0 {
-				c.Sample(map[string]any{"case": oid, "spec": sp.String(), "summary": res.Summary, "mismatches": len(res.K.mm)})
-			}
-			seen := map[string]bool{}
-			for _, m := range res.K.mm {
-				if seen[m.Key] {
-					continue
-				}
-				seen[m.Key] = true
-				c.Violation(m.Key, m.Detail, oid, map[string]any{
-					"spec": sp.String(), "handshake": o.Label, "client_error": fmt.Sprint(o.CErr), "server_error": fmt.Sprint(o.SErr),
-					"summary": res.Summary, "tap": tapHex(o), "client_keylog": o.ClientKL, "server_keylog": o.ServerKL,
-				})
-			}
+			c.Count("scripted_handshakes", 1)
+			report(sp, id, idx, o, pki.Server[sc.Kind].Key)
 		}
 	}
 }
